@@ -1081,6 +1081,7 @@ func (e *Engine) candRange(o *Object, off *Term, n int) (int, int) {
 }
 
 func (e *Engine) loadCells(st *State, o *Object, off *Term, n int) []Value {
+	e.record(st, o, off, n, false)
 	cells := e.cells(st, o)
 	if off.IsConst() {
 		k := int(off.ConstU())
@@ -1145,6 +1146,7 @@ func (e *Engine) storeCells(st *State, o *Object, off *Term, vals []Value) {
 	if n == 0 {
 		return
 	}
+	e.record(st, o, off, n, true)
 	if off.IsConst() {
 		k := int(off.ConstU())
 		cells := e.cellsW(st, o)
